@@ -247,7 +247,16 @@ def toRootKey (tbl : List (Key × σ)) (i : Option Nat) (k : Key) : Key :=
     | some (p, _) => Pfx.inverse p k
     | none => k
 
+/-- `to_root_key` through several translating layers (a `MountPointStore` mounted inside another one, as `web_mount()` builds):
+every layer prepends its own prefix and hands the key to its parent; `ps` lists the prefixes from the innermost layer outwards -/
+def toRootKeyChain (ps : List Key) (k : Key) : Key := ps.foldl (fun k p => Pfx.inverse p k) k
+
 end Mt
+
+/-- a store behind several prefix layers, outermost prefix first -/
+def prefixChain (P : StoreOps σ) : List Key → StoreOps σ
+  | [] => P
+  | p :: ps => prefixOps (prefixChain P ps) p
 
 /-- `MountPointStore(default, routing_table)` -/
 def mountOps (P : StoreOps σ) (supp : σ → Key → Bool) : StoreOps (MtState σ) where
